@@ -107,6 +107,8 @@ class ClassView:
         if a.vararg is not None:
             raise Untranslatable(f"{rel}: {name}.__init__ takes *args")
         self.params = [x.arg for x in a.posonlyargs + a.args + a.kwonlyargs if x.arg != "self"]
+        self.classes = classes
+        self.order = order
         # attributes assigned outside __init__ anywhere in the class (fitted attributes)
         self.assigned_outside_init = set()
         for mn, m in self.methods.items():
@@ -119,6 +121,56 @@ class ClassView:
 
     def bad(self, node, why):
         raise Untranslatable(f"{self.rel}: {self.name}: {why}: `{ast.unparse(node)[:120]}`")
+
+    # ------------------------------------------------------------------ attributes __init__ derives from parameters
+    def init_derived(self):
+        """[(attribute, sorted constructor parameters of THIS class its value depends on)] for every `self.a = <expr>` of the
+        `__init__` chain where `a` is not a constructor parameter of this class"""
+        out = {}
+
+        def visit(cname, env, depth=0):
+            """env: parameter name of class cname's __init__ -> set of parameters of the analysed class it depends on"""
+            init = next((m for m in self.classes[cname].body if isinstance(m, ast.FunctionDef) and m.name == "__init__"), None)
+            if init is None or depth > 4:
+                return
+            local = dict(env)
+            for st in ast.walk(init):
+                if isinstance(st, ast.Assign) and len(st.targets) == 1:
+                    deps = set()
+                    for n in ast.walk(st.value):
+                        if isinstance(n, ast.Name) and n.id in local:
+                            deps |= local[n.id]
+                        a = _self_attr(n)
+                        if a is not None and a in out:
+                            deps |= set(out[a])
+                        elif a is not None and a in self.params:
+                            deps.add(a)
+                    t = st.targets[0]
+                    a = _self_attr(t)
+                    if a is not None:
+                        if a not in self.params:
+                            out[a] = sorted(set(out.get(a, [])) | deps)
+                    elif isinstance(t, ast.Name):
+                        local[t.id] = deps
+                elif isinstance(st, ast.Call) and isinstance(st.func, ast.Attribute) and st.func.attr == "__init__" \
+                        and isinstance(st.func.value, ast.Call) and ast.unparse(st.func.value.func) == "super":
+                    bases = [b.id for b in self.classes[cname].bases if isinstance(b, ast.Name) and b.id in self.classes]
+                    for b in bases:
+                        binit = next((m for m in self.classes[b].body if isinstance(m, ast.FunctionDef) and m.name == "__init__"), None)
+                        if binit is None:
+                            continue
+                        bparams = [x.arg for x in binit.args.posonlyargs + binit.args.args + binit.args.kwonlyargs if x.arg != "self"]
+                        benv = {p: set() for p in bparams}
+                        for pname, arg in zip(bparams, st.args):
+                            benv[pname] = {n.id for n in ast.walk(arg) if isinstance(n, ast.Name) and n.id in local for _ in [0]} and \
+                                set().union(*[local[n.id] for n in ast.walk(arg) if isinstance(n, ast.Name) and n.id in local])
+                        for k in st.keywords:
+                            if k.arg in benv:
+                                names = [n.id for n in ast.walk(k.value) if isinstance(n, ast.Name) and n.id in local]
+                                benv[k.arg] = set().union(*[local[x] for x in names]) if names else set()
+                        visit(b, benv, depth + 1)
+        visit(self.name, {p: {p} for p in self.params})
+        return sorted(out.items())
 
     # ------------------------------------------------------------------ closure + flow-insensitive facts
     def closure(self, roots):
@@ -752,7 +804,8 @@ def analyse(repo):
         data[tag] = dict(cls=name, params=cv.params, fitAssigned=fa, fitMutated=fm, fitSelfEscapes=fe,
                          predictMethods=pmeth, predictAssigned=sorted(set(pa) | set(pm)), predictSelfEscapes=pe,
                          fitReturns=cv.returns(FIT_ROOTS) if tag != "LAG" else [],
-                         fitReceivers=cv.receivers(roots), fitHistoryReads=hist, initDerivedReads=initd)
+                         fitReceivers=cv.receivers(roots), fitHistoryReads=hist, initDerivedReads=initd,
+                         initDerivedDeps=cv.init_derived())
     latch = _moment_latch(repo)
     cons = {}
     for tag in ("EG", "GS"):
@@ -795,6 +848,9 @@ def lifecycle_src(repo):
                  "fitted attributes that `fit` may read before it has definitely reassigned them")
     src += table("initDerivedReads", "List String", lambda d: slist(d["initDerivedReads"]),
                  "attributes read by `fit` that are neither parameters nor assigned outside `__init__`")
+    src += table("initDerivedDeps", "List (String × List String)",
+                 lambda d: "[" + ", ".join(f"({lstr(a)}, {slist(ps)})" for a, ps in d["initDerivedDeps"]) + "]",
+                 "attributes `__init__` sets that are not constructor parameters, with the parameters their value depends on")
     src += table("predictMethods", "List String", lambda d: slist(d["predictMethods"]), "prediction entry points present")
     src += table("predictAssigned", "List String", lambda d: slist(d["predictAssigned"]),
                  "`self.<name>` rebound or stored into in the closure of the prediction entry points")
